@@ -86,7 +86,7 @@ theorem C17_no_panic (r : Req) : (run r).isPanic = false := by
     intro proto
     apply bind_isPanic _ _ (C17_connect_stage r)
     intro _
-    apply bind_isPanic _ _ (C17_checks proto r)
+    apply bind_isPanic _ _ (C17_checks (connectionProtocol proto r) r)
     intro _
     unfold sendStage; split <;> rfl
 
